@@ -146,7 +146,7 @@ func (globber *Globber) glob(rootPath string, glob string, excludes []string, in
 		if isInDirectories(m, walkedDir.subPackages) {
 			continue
 		}
-		if !includeHidden && isHidden(m) {
+		if !includeHidden && isHidden(strings.TrimPrefix(m, rootPath+"/")) {
 			continue
 		}
 
@@ -269,8 +269,12 @@ func isInDirectories(name string, directories []string) bool {
 	return false
 }
 
-// isHidden checks if the file is a hidden file i.e. starts with . or, starts and ends with #.
+// isHidden checks if the file is a hidden file i.e. it or any directory leading to it starts with . or, starts and ends with #.
 func isHidden(name string) bool {
-	file := filepath.Base(name)
-	return strings.HasPrefix(file, ".") || (strings.HasPrefix(file, "#") && strings.HasSuffix(file, "#"))
+	for _, part := range strings.Split(name, "/") {
+		if strings.HasPrefix(part, ".") || (strings.HasPrefix(part, "#") && strings.HasSuffix(part, "#")) {
+			return true
+		}
+	}
+	return false
 }
